@@ -432,13 +432,29 @@ fn cmd_replay(args: &[String]) {
     println!("replay of {} did not reproduce a violation on this tree", path);
 }
 
+/// One execution of a replay file; prints the violation class. Used by the subprocess minimiser.
+fn cmd_replay_once(args: &[String]) {
+    let path = args.get(0).map(|s| s.as_str()).unwrap_or_else(|| die("replay-once <file>"));
+    std::panic::set_hook(Box::new(|_| {}));
+    let rf = load_replay(path);
+    let res = run_replay(&rf);
+    if let Some(e) = res.harness_error {
+        die(&e);
+    }
+    if let Some(v) = res.violation {
+        println!("CLASS={}", v.class());
+        std::process::exit(1);
+    }
+}
+
 fn cmd_minimise(args: &[String]) {
     let path = args.get(0).map(|s| s.as_str()).unwrap_or_else(|| die("minimise <in> <out>"));
     let out = args.get(1).map(|s| s.as_str()).unwrap_or_else(|| die("minimise <in> <out>"));
     let budget = arg_u64(args, "--wall-s", 120);
     std::panic::set_hook(Box::new(|_| {}));
     let rf = load_replay(path);
-    let min = minimise::minimise(rf, budget);
+    let subprocess = args.iter().any(|a| a == "--subprocess");
+    let min = minimise::minimise(rf, budget, subprocess);
     std::fs::write(out, serde_json::to_string_pretty(&min).unwrap()).unwrap_or_else(|e| die(&format!("cannot write {}: {}", out, e)));
     println!(
         "minimised: threads={} ops={} programs={} schedule_segments={} invariant={}",
@@ -648,6 +664,7 @@ fn main() {
     match args[0].as_str() {
         "batch" => cmd_batch(rest),
         "replay" => cmd_replay(rest),
+        "replay-once" => cmd_replay_once(rest),
         "minimise" => cmd_minimise(rest),
         "gen" => cmd_gen(rest),
         "explain" => cmd_explain(rest),
